@@ -45,7 +45,50 @@ def children(r):
     return [x for x in r[1:] if isinstance(x, tuple)]
 
 
-def run_case(cx, r, signed, threshold, envs):
+BIN = {"+": "Add", "-": "Sub", "*": "Mul", "&": "And", "|": "Or", "^": "Xor", "<<": "Shl", ">>": "Shr", ".>>": "Asr", ">>>": "Ror",
+       "<<<": "Rol", "==": "Eq", "!=": "Neq", "<.": "Ltu", ">=.": "Geu", "<": "Lt", "<=": "Le", ">": "Gt", ">=": "Ge", "**": "Mul2",
+       "/": "Div", "%": "Mod"}
+BINID = {s: i for i, s in enumerate(["+", "-", "*", "&", "|", "^", "<<", ">>", ".>>", ">>>", "<<<", "==", "!=", "<.", ">=.", "<", "<=", ">",
+                                     ">=", "**", "/", "%"])}
+
+
+class Unsupported(Exception):
+    pass
+
+
+def coq_exp(t, names):
+    """dumped tree -> Gallina term of Amoco.Exp.Sem.exp"""
+    k = t[0]
+    b = lambda x: "true" if x else "false"
+    if k == "cst":
+        return "(ECst %s %d %s)" % (zlit(t[1]), t[2], b(t[3]))
+    if k == "reg":
+        return "(EReg %d %d %s)" % (names.setdefault(t[1], len(names)), t[2], b(t[3]))
+    if k == "slc":
+        return "(ESlc %s %d %d %s)" % (coq_exp(t[1], names), t[2], t[3], b(t[4]))
+    if k == "comp":
+        parts = t[1]
+        if len(parts) < 2:
+            raise Unsupported("comp with %d part" % len(parts))
+        # right-nested concatenation; inner nodes carry the width of what they hold
+        acc = coq_exp(parts[-1][2], names)
+        accw = parts[-1][1] - parts[-1][0]
+        for lo, hi, p in reversed(parts[:-1]):
+            accw += hi - lo
+            acc = "(ECat %s %s %d %s)" % (coq_exp(p, names), acc, accw, b(t[3]))
+        return acc
+    if k == "tst":
+        return "(ETst %s %s %s %d %s)" % (coq_exp(t[1], names), coq_exp(t[2], names), coq_exp(t[3], names), t[4], b(t[5]))
+    if k == "op":
+        return "(EOp %s %s %s %d %s)" % (BIN[t[1]], coq_exp(t[2], names), coq_exp(t[3], names), t[4], b(t[5]))
+    if k == "uop":
+        if t[1] == "+":
+            return coq_exp(t[2], names)
+        return "(EUop %s %s %d %s)" % ({"-": "Neg", "~": "Not"}[t[1]], coq_exp(t[2], names), t[3], b(t[4]))
+    raise Unsupported(k)
+
+
+def run_case(cx, r, signed, threshold, envs, collect=None):
     """-> None if everything agrees, else (symptom, detail)"""
     E = cx.E
     cx.conf.Cas.complexity = threshold
@@ -73,6 +116,23 @@ def run_case(cx, r, signed, threshold, envs):
     er = X.tiling_error(t)
     if er:
         return ("tiling", er + " in " + str(e))
+    # the same tree through simplify with the bit-slicing option
+    try:
+        tb = X.dump(X.Builder(signed).build(r).simplify(bitslice=True))
+        for env, want in zip(envs, wants):
+            try:
+                got = X.ref_dump(tb, env)
+            except X.Ambiguous:
+                continue
+            if got != want:
+                return ("bitslice-simplified-tree-differs", "simplify(bitslice=True) of %s denotes %#x, reference %#x under %s" % (e, got, want, env))
+    except (X.Ambiguous, ZeroDivisionError):
+        pass
+    except MemoryError:
+        return ("resource|simplify-bitslice", "simplify(bitslice=True) of %s exhausts memory" % e)
+    except Exception as x:
+        tb_ = traceback.extract_tb(x.__traceback__)[-1]
+        return ("bitslice-raised|%s|%s" % (type(x).__name__, tb_.name), "simplify(bitslice=True) of %s: %s" % (e, str(x)[:80]))
     for env, want in zip(envs, wants):
         try:
             got = X.ref_dump(t, env)
@@ -95,6 +155,15 @@ def run_case(cx, r, signed, threshold, envs):
         if res._is_cst:
             if res.v != want:
                 return ("eval-value-differs", "%s evaluates to %#x, reference %#x under %s" % (e, res.v, want, env))
+            if collect is not None and len(collect) < collect.limit:
+                try:
+                    names = {}
+                    term = coq_exp(t, names)
+                    envt = clist(["(%d, %s)" % (names[nm], zlit(v)) for nm, v in env.items() if nm in names])
+                    collect.append(("(%s, %s, %s)" % (term, envt, zlit(res.v)),
+                                    "(%s, %s, (0, C %s %d %s))" % (term, envt, zlit(res.v), res.size, "true" if res.sf else "false")))
+                except Unsupported:
+                    pass
     return None
 
 
@@ -224,14 +293,21 @@ def gen_case(rng, maxdepth):
 
 def worker(args):
     seed, ncases, maxdepth = args
+    import resource
+    resource.setrlimit(resource.RLIMIT_AS, (4 << 30, 4 << 30))
     cx = Ctx()
     rng = random.Random(seed)
     out = {"n": 0, "skipped": 0, "distinct": set(), "finds": {}, "ops": {}, "samples": [], "widths": {}}
+
+    class L(list):
+        limit = 220
+    sem = L()
+    out["sem"] = sem
     for _ in range(ncases):
         r, signed, threshold, envs = gen_case(rng, maxdepth)
         out["n"] += 1
         try:
-            o = run_case(cx, r, signed, threshold, envs)
+            o = run_case(cx, r, signed, threshold, envs, sem if out["n"] % 3 == 0 else None)
         except Exception as x:
             o = ("harness-error", repr(x))
         if o is not None and o[0] == "skip":
@@ -255,6 +331,7 @@ def worker(args):
                 out["finds"][key] = {"recipe": small, "signed": signed, "threshold": threshold, "envs": envs2, "detail": o2[1],
                                      "original_recipe_ops": nops}
     out["distinct"] = len(out["distinct"])
+    out["sem"] = list(sem)
     return out
 
 
@@ -287,17 +364,118 @@ def check(run):
             finds.setdefault(k, v)
     for k, v in sorted(finds.items()):
         run.violation(k, "expression algebra: %s" % v["detail"][:140], v)
+    sem = [c[0] for r in results for c in list(r["sem"])]
+    evs = [c[1] for r in results for c in list(r["sem"])]
     cst_part(run, quick)
-    tree_part(run, quick)
+    tree_part(run, sem)
+    eval_part(run, evs)
+    run.cov["trusted_base"] += ["harness/exptree.py: recipe generator, independent tree walker (dump) and Python reference interpreter; "
+                                "harness/c01.py translation of dumped trees into Gallina terms"]
+    run.assumptions += ["signed division/modulo and rotations by >= width are outside the covered fragment; operands of ordered comparisons, "
+                        "**, / and % are registers, constants and sign-agnostic arithmetic over them, explicitly declared signed/unsigned"]
     return run
 
 
 def cst_part(run, quick):
-    pass
+    """cst operators: model (Amoco.Exp.Cst) vs implementation; exhaustive for small widths, random for wide ones"""
+    cx = Ctx()
+    E = cx.E
+    rng = random.Random(run.seed * 77 + 5)
+    syms = sorted(BINID, key=BINID.get)
+    rows = []
+
+    def one(sym, va, na, sa, vb, nb, sb):
+        a, b = E.cst(va, na), E.cst(vb, nb)
+        a.sf, b.sf = sa, sb
+        try:
+            r = E._operator(sym)(a, b)
+            obs = "(0, C %s %d %s)" % (zlit(r.v), r.size, "true" if r.sf else "false")
+        except ZeroDivisionError:
+            obs = "(2, C 0 0 false)"
+        except ValueError:
+            obs = "(1, C 0 0 false)"
+        rows.append("(%d, C %s %d %s, C %s %d %s, %s)" % (BINID[sym], zlit(va), na, "true" if sa else "false", zlit(vb), nb,
+                                                        "true" if sb else "false", obs))
+    maxw = 3 if quick else 4
+    for n in range(1, maxw + 1):
+        for va in range(1 << n):
+            for vb in range(1 << n):
+                for sa in (False, True):
+                    for sb in (False, True):
+                        for sym in syms:
+                            one(sym, va, n, sa, vb, n, sb)
+    nexh = len(rows)
+    for _ in range(3000 if quick else 40000):
+        n = rng.choice(X.WIDTHS + [rng.randrange(1, 129)])
+        sym = rng.choice(syms)
+        pick = lambda: rng.choice([0, 1, X.mask(n), 1 << (n - 1), rng.getrandbits(n), rng.getrandbits(n)])
+        va, vb = pick(), pick()
+        if sym in X.SHIFTS + X.ROTS and rng.random() < 0.6:
+            vb = rng.choice([0, 1, n - 1, n, n + 1, rng.randrange(0, 2 * n + 2)]) & X.mask(n)
+        nb = n if rng.random() < 0.95 else rng.choice(X.WIDTHS)
+        one(sym, va, n, rng.random() < 0.5, vb & X.mask(nb), nb, rng.random() < 0.5)
+    shards = [rows[i:i + 1500] for i in range(0, len(rows), 1500)]
+    texts = [("cst_%03d" % i, "From Coq Require Import ZArith List.\nImport ListNotations.\nRequire Import Amoco.Exp.Sem Amoco.Exp.Cst.\nOpen Scope Z_scope.\n"
+              "Definition cases : list cst_case := [\n%s\n].\nEval vm_compute in (bad_from check_cst 0 cases).\n" % ";\n".join(sh)) for i, sh in enumerate(shards)]
+    res = common.coq_eval_many(run.work / "cst", texts)
+    n_ok = 0
+    for i, sh in enumerate(shards):
+        rc, out = res["cst_%03d" % i]
+        lists = common.parse_nat_list(out)
+        if rc != 0 or len(lists) != 1:
+            run.violation("model-eval|cst", "cst model evaluation failed", {"theorem_or_correspondence": "Amoco.Exp.Cst.check_cst shard %d" % i, "output": out[-800:]}, found_input=False)
+            continue
+        n_ok += len(sh)
+        for k in lists[0][:3]:
+            run.violation("cst-model-impl-correspondence", "Gallina cst operator model and cst class disagree: %s" % sh[k][:120],
+                          {"theorem_or_correspondence": "Amoco.Exp.Cst.check_cst", "case(op,a,b,observed)": sh[k]}, found_input=False)
+    run.cov["cst_operator_cases"] = {"exhaustive_widths_1..%d" % maxw: nexh, "random_wide": len(rows) - nexh, "evaluated_in_coq": n_ok}
+    run.cov["evaluations"] += len(rows)
+    run.cov["traces_validated_against_impl"] = run.cov.get("traces_validated_against_impl", 0) + n_ok
 
 
-def tree_part(run, quick):
-    pass
+def eval_part(run, evs):
+    """the Gallina model of exp.eval (Amoco.Exp.Eval) against the constants the implementation returned (value, width, sign flag)"""
+    shards = [evs[i:i + 300] for i in range(0, len(evs), 300)]
+    texts = [("ev_%03d" % i, "From Coq Require Import ZArith List.\nImport ListNotations.\nRequire Import Amoco.Exp.Sem Amoco.Exp.Cst Amoco.Exp.Eval.\nOpen Scope Z_scope.\n"
+              "Definition cases : list eval_case := [\n%s\n].\nEval vm_compute in (bad_from check_eval 0 cases).\n" % ";\n".join(sh)) for i, sh in enumerate(shards)]
+    res = common.coq_eval_many(run.work / "ev", texts)
+    n_ok = 0
+    for i, sh in enumerate(shards):
+        rc, out = res["ev_%03d" % i]
+        lists = common.parse_nat_list(out)
+        if rc != 0 or len(lists) != 1:
+            run.violation("model-eval|eval", "eval model evaluation failed", {"theorem_or_correspondence": "Amoco.Exp.Eval.check_eval shard %d" % i, "output": out[-800:]}, found_input=False)
+            continue
+        n_ok += len(sh)
+        for k in lists[0][:3]:
+            run.violation("eval-model-impl-correspondence", "Gallina model of exp.eval and the implementation disagree (value, width or sign flag)",
+                          {"theorem_or_correspondence": "Amoco.Exp.Eval.check_eval", "case(tree,env,observed)": sh[k][:1500]}, found_input=False)
+    run.cov["eval_model_cases_in_coq"] = n_ok
+    run.cov["traces_validated_against_impl"] = run.cov.get("traces_validated_against_impl", 0) + n_ok
+
+
+def tree_part(run, sem):
+    """implementation-built trees and the values amoco computed for them, checked against `denote` by the Coq kernel"""
+    shards = [sem[i:i + 300] for i in range(0, len(sem), 300)]
+    texts = [("sem_%03d" % i, "From Coq Require Import ZArith List.\nImport ListNotations.\nRequire Import Amoco.Exp.Sem.\nOpen Scope Z_scope.\n"
+              "Definition cases : list sem_case := [\n%s\n].\nEval vm_compute in (bad_from check_sem 0 cases).\n"
+              "Eval vm_compute in [count_true sem_defined cases].\n" % ";\n".join(sh)) for i, sh in enumerate(shards)]
+    res = common.coq_eval_many(run.work / "sem", texts)
+    n_ok = n_def = 0
+    for i, sh in enumerate(shards):
+        rc, out = res["sem_%03d" % i]
+        lists = common.parse_nat_list(out)
+        if rc != 0 or len(lists) != 2:
+            run.violation("model-eval|sem", "reference semantics evaluation failed", {"theorem_or_correspondence": "Amoco.Exp.Sem.check_sem shard %d" % i, "output": out[-800:]}, found_input=False)
+            continue
+        n_ok += len(sh)
+        n_def += lists[1][0] if lists[1] else 0
+        for k in lists[0][:3]:
+            run.violation("denote-vs-implementation", "amoco's value for a built tree differs from the Gallina reference semantics (or the tree is not well-sized)",
+                          {"theorem_or_correspondence": "Amoco.Exp.Sem.check_sem", "case(tree,env,value)": sh[k][:1500]}, found_input=False)
+    run.cov["trees_checked_against_denote_in_coq"] = {"cases": n_ok, "denote_defined": n_def}
+    run.cov["traces_validated_against_impl"] = run.cov.get("traces_validated_against_impl", 0) + n_ok
 
 
 def replay(path):
